@@ -75,6 +75,7 @@ def buildErrName : BuildErr → String
   | .v6PrimaryNonV6Sub => "v6_primary_nonv6_sub" | .nonV6PrimaryV6Sub => "nonv6_primary_v6_sub"
   | .cannotSign => "cannot_sign" | .cannotEncrypt => "cannot_encrypt" | .cannotAuth => "cannot_auth"
   | .rsaSmall => "rsa_small" | .ecdsaCurve => "ecdsa_curve" | .v4NeedsUid => "v4_needs_uid"
+  | .keyVersion => "key_version" | .subkeyVersion => "subkey_version"
 
 def genErrName : GenErr → String
   | .legacyAlgVersion => "legacy_alg_version" | .v3Alg => "v3_alg" | .ecdhCurve => "ecdh_curve"
@@ -121,11 +122,7 @@ def handleShape (a : Args) : Option String := do
     let prefs : Prefs :=
       { sym := ← a.natList "sym", hash := ← a.natList "hash", comp := ← a.natList "comp",
         aead := parseAead (← a.natList "aead"), seipdV1 := (← a.nat "f1") == 1, seipdV2 := (← a.nat "f2") == 1 }
-    let p : GenParams :=
-      { version := q.builder.effVersion, keyType := q.kt,
-        flags := { certify := q.cert, sign := q.sign, encryptComms := q.enc.isCommunication,
-                   encryptStorage := q.enc.isStorage, authentication := q.auth },
-        prefs := prefs, created := 0, primaryUid := q.builder.primaryUid, uids := q.builder.uids, subkeys := q.subs }
+    let p : GenParams := q.builder.toParams q.kt prefs 0 0
     let r : GenRand Nat := { primarySec := 1, subSecs := (List.range q.subs.length).map (· + 2), salt := fun _ => [], now := 0 }
     match generate toyPrims p r with
     | .error .panicKeyVersion => pure "panic"
@@ -194,7 +191,7 @@ def handle (op : String) (a : Args) : Option String :=
     match how with
     | "mpi" => pure (valRest (mpiRead d))
     | "pad" => pure (valRest ((mpiRead d).bind fun vr => (padKey n vr.1).map fun k => (k, vr.2)))
-    | "ec" => pure (valRest ((mpiRead d).bind fun vr => (ecFromSlice n vr.1).map fun k => (k, vr.2)))
+    | "ec" => pure (valRest ((mpiRead d).bind fun vr => (padKey n vr.1).map fun k => (k, vr.2)))
     | "c25519" => pure (valRest (c25519SecretRead d))
     | "eddsapt" => pure (valRest (eddsaLegacyPointRead d))
     | "ecdhpt" => pure (valRest (ecdh25519PointRead d))
